@@ -21,3 +21,6 @@ open Biogo.Properties.C07
 #print axioms wellformed_gives_hypotheses
 #print axioms clone_deep_edits
 #print axioms append_no_retain_history
+#print axioms row_eq_column_reachable
+#print axioms frame_on_observations
+#print axioms clone_equal_on_observations
